@@ -32,6 +32,8 @@ type Q struct {
 	typeIDs   map[string]int
 	boxFns    map[string]bool
 	notes     map[string]bool // abstraction notes (assumptions met during translation)
+	defCache  map[string]string
+	defs      map[string]string
 }
 
 type structInfo struct {
@@ -43,7 +45,7 @@ type structInfo struct {
 
 func newQ(mode Mode) *Q {
 	return &Q{mode: mode, declared: map[string]string{}, structs: map[string]*structInfo{}, structKey: map[string]string{},
-		heaps: map[string]string{}, fresh: map[string]int{}, strLits: map[string]string{}, typeIDs: map[string]int{}, boxFns: map[string]bool{}, notes: map[string]bool{}}
+		heaps: map[string]string{}, fresh: map[string]int{}, strLits: map[string]string{}, typeIDs: map[string]int{}, boxFns: map[string]bool{}, notes: map[string]bool{}, defCache: map[string]string{}, defs: map[string]string{}}
 }
 
 func (q *Q) note(s string) { q.notes[s] = true }
@@ -349,7 +351,79 @@ func (q *Q) freshConst(hint, sort string) string {
 
 func (q *Q) assert(f string) { q.body = append(q.body, fmt.Sprintf("(assert %s)", f)) }
 
+// define names a term; identical (sort, term) pairs share one name (common-subexpression elimination), which keeps
+// repeated loads of the same location syntactically identical.
 func (q *Q) define(hint, sort, term string) string {
+	key := sort + "\x00" + term
+	if n, ok := q.defCache[key]; ok {
+		return n
+	}
+	n := q.define0(hint, sort, term)
+	q.defCache[key] = n
+	q.defs[n] = term
+	return n
+}
+
+// rw: read-over-write simplification on named heap versions: select(store(b,k,v),k) -> v (syntactic keys only)
+func (q *Q) rw(arr, idx string) string {
+	for i := 0; i < 64; i++ {
+		t, ok := q.defs[arr]
+		if !ok {
+			break
+		}
+		if !strings.HasPrefix(t, "(store ") {
+			break
+		}
+		parts := splitTop(t[1 : len(t)-1])
+		if len(parts) != 4 {
+			break
+		}
+		if parts[2] == idx {
+			return parts[3]
+		}
+		break // different key: cannot skip syntactically (may alias)
+	}
+	return "(select " + arr + " " + idx + ")"
+}
+
+// splitTop splits an s-expression body into its top-level items.
+func splitTop(s string) []string {
+	var out []string
+	depth, start, inBar := 0, -1, false
+	for i := 0; i < len(s); i++ {
+		c := s[i]
+		switch {
+		case c == '|':
+			if start < 0 {
+				start = i
+			}
+			inBar = !inBar
+		case inBar:
+		case c == '(':
+			if start < 0 {
+				start = i
+			}
+			depth++
+		case c == ')':
+			depth--
+		case c == ' ':
+			if depth == 0 && start >= 0 {
+				out = append(out, s[start:i])
+				start = -1
+			}
+		default:
+			if start < 0 {
+				start = i
+			}
+		}
+	}
+	if start >= 0 {
+		out = append(out, s[start:])
+	}
+	return out
+}
+
+func (q *Q) define0(hint, sort, term string) string {
 	hint = mangle(hint)
 	q.fresh[hint]++
 	name := fmt.Sprintf("|%s!%d|", hint, q.fresh[hint])
